@@ -30,7 +30,8 @@ CONSTANTS ReqX, ReqY,     \* values of srtp_required explored for X / Y (subsets
 
 VARIABLES req,      \* [X |-> BOOLEAN, Y |-> BOOLEAN]   srtp_required (fixed at construction)
           gen,      \* [X |-> 0..MaxGen, Y |-> ..]      0 = no SRTP session, n = n-th session installed
-          bridge,   \* "None" | "X" | "Y"               rewrite-bridge target of X
+          bridge,   \* "None" | "X" | "Y" | "V"         rewrite-bridge target of X; "V": Y, with X itself as the
+                    \*                                  video target (bridge_rewrite_rules_to_with_video)
           closed,   \* close path has run on X
           wire,     \* ghost: every datagram emitted so far  [tr, cls, gen, gate]
           sinks,    \* ghost: every delivery so far          [sink, auth, gen]
@@ -43,7 +44,13 @@ vars == <<req, gen, bridge, closed, wire, sinks, hist, rep>>
 
 Tr == {"X", "Y"}
 AllOps == {"KX", "KY", "S", "SR", "SC", "BYE", "CL",
-           "RcR", "RcC", "RvR", "RfR", "RvC", "RfC", "BX", "BY", "B0"}
+           "RcR", "RcC", "RvR", "RfR", "RvC", "RfC", "BX", "BY", "BV", "B0"}
+
+\* Which payload type an inbound RTP packet carries is free; the replayer is told: packets of a step at an even
+\* position carry the payload type registered as video with the bridge, the others an audio one. The bridge picks its
+\* destination from the original payload type, before any rewriting.
+Video == Len(hist) % 2 = 1
+Target == IF bridge = "V" THEN (IF Video THEN "X" ELSE "Y") ELSE bridge
 GateNames == {"send", "send_rtp", "send_rtcp", "sync_bye", "bridge", "recv_rtp", "recv_rtcp"}
 
 Init ==
@@ -90,7 +97,8 @@ Step(op, w, d, auth) ==
     ad  |-> IF auth = "none" THEN FALSE ELSE DeliverAllowed(auth),      \* allowed by C14
     \* is the exact expectation meaningful?  (a protected packet taken as plain RTP/RTCP by a
     \* transport without session and without the SRTP requirement parses or not: unspecified)
-    dx  |-> ~(auth \in {"valid", "forged"} /\ gen["X"] = 0 /\ ~req["X"]) ]
+    dx  |-> ~(auth \in {"valid", "forged"} /\ gen["X"] = 0 /\ ~req["X"]),
+    vid |-> Video ]
 
 RECURSIVE Times(_, _)
 Times(sq, n) == IF n = 0 THEN <<>> ELSE sq \o Times(sq, n - 1)
@@ -133,7 +141,7 @@ RecvRtp(op, auth) ==
      THEN Emit(op, <<>>, <<>>, auth)
      ELSE IF bridge # "None"
           THEN \* observers first, then the bridge fast path consumes the packet
-               LET out == Gate(bridge, "bridge") IN
+               LET out == Gate(Target, "bridge") IN
                Emit(op, out,
                     <<"obs", "tobs">> \o (IF Len(out) > 0 THEN <<"bridged">> ELSE <<>>), auth)
           ELSE Emit(op, <<>>, <<"obs">> \o (IF closed THEN <<>> ELSE <<"lst">>), auth)
@@ -147,7 +155,7 @@ RecvRtcp(op, auth) ==
 
 InstallBridge(t) ==
   /\ bridge' = t
-  /\ Emit(IF t = "X" THEN "BX" ELSE "BY", <<>>, <<>>, "none")
+  /\ Emit(IF t = "X" THEN "BX" ELSE IF t = "Y" THEN "BY" ELSE "BV", <<>>, <<>>, "none")
   /\ UNCHANGED <<req, gen, closed>>
 
 ClearBridge ==
@@ -171,6 +179,7 @@ Do(op) ==
     [] op = "RfC" -> RecvRtcp("RfC", "forged")
     [] op = "BX"  -> InstallBridge("X")
     [] op = "BY"  -> InstallBridge("Y")
+    [] op = "BV"  -> InstallBridge("V")
     [] op = "B0"  -> ClearBridge
 
 Next == Len(hist) < MaxLen /\ \E op \in Ops : Do(op)
@@ -198,5 +207,5 @@ StepInside == [][ /\ \A i \in (Len(wire) + 1)..Len(wire') : wire'[i].cls \in All
 
 TypeOK ==
   /\ req \in [Tr -> BOOLEAN] /\ gen \in [Tr -> 0..MaxGen]
-  /\ bridge \in {"None", "X", "Y"} /\ closed \in BOOLEAN
+  /\ bridge \in {"None", "X", "Y", "V"} /\ closed \in BOOLEAN
 =============================================================================
